@@ -335,6 +335,7 @@ func mutateTokens(r *simrt.Rand, toks []string) []string {
 
 func genC09(c *Ctx) any {
 	r := c.Rand("c09")
+	rl := c.Rand("c09-layout")
 	cs := &C09Case{}
 	n := 120
 	maxDepth := 6
@@ -383,6 +384,31 @@ func genC09(c *Ctx) any {
 			in = string(bs)
 		}
 		cs.Inputs = append(cs.Inputs, S(in))
+		// layout variants of the input just parsed, in the same process right after it: anything that remembers
+		// a parse under a key coarser than the text (squeezed or trimmed white space, case) answers the second
+		// text with the first one's tree, or accepts a non-sentence because its neighbour was a sentence
+		if rl.Chance(1, 4) && len(in) < 4096 {
+			ws := []string{"\v", "\f", "\u0085", "\u00a0", "\u2028", " ", "\t", "\n", "\r", "\x00"}
+			var alt string
+			switch rl.Intn(6) {
+			case 0:
+				alt = strings.ReplaceAll(in, " ", "  ")
+			case 1:
+				alt = strings.ReplaceAll(in, " ", ws[rl.Intn(len(ws))])
+			case 2:
+				alt = in + ws[rl.Intn(len(ws))]
+			case 3:
+				alt = ws[rl.Intn(len(ws))] + in
+			case 4:
+				alt = in // the same text again: the answer must not depend on having been asked before
+			default:
+				alt = strings.ReplaceAll(in, "  ", " ")
+				if alt == in {
+					alt = strings.ToUpper(in)
+				}
+			}
+			cs.Inputs = append(cs.Inputs, S(alt))
+		}
 	}
 	return cs
 }
